@@ -234,7 +234,7 @@ type Discharger struct {
 	Primary   []string // solver order
 	Stats     *SolveStats
 	Workers   int
-	SecondOpinion string // if set, every unsat answer of a ground family is re-checked on this solver
+	SecondGround string // if set, every ground-family instance is re-checked on this solver (independent Float64 implementation)
 	KeepFailed string // directory where failed obligations are written
 }
 
@@ -329,14 +329,14 @@ func (d *Discharger) discharge(groups [][]*Oblig) {
 			defer wg.Done()
 			defer func() { <-sem }()
 			runBatch(ctx, solvers[d.Primary[0]], d.Prelude, jb.decls, jb.obs, d.TimeoutMs, d.Dir, d.Stats)
-			if d.SecondOpinion != "" {
+			if d.SecondGround != "" && len(jb.obs) > 0 && jb.obs[0].Template != nil {
 				// independent Float64 implementation must agree
 				cp := make([]*Oblig, len(jb.obs))
 				for i, o := range jb.obs {
 					c := *o
 					cp[i] = &c
 				}
-				runBatch(ctx, solvers[d.SecondOpinion], d.Prelude, jb.decls, cp, d.TimeoutMs, d.Dir, d.Stats)
+				runBatch(ctx, solvers[d.SecondGround], d.Prelude, jb.decls, cp, d.TimeoutMs, d.Dir, d.Stats)
 				for i, o := range jb.obs {
 					if o.Kind == "cover" {
 						continue
